@@ -93,4 +93,4 @@ func ZZC06Enum() {
 	v.Reach("C06/enum")
 }
 
-var ZZHarnesses = map[string]func(){"ZZC06Enum": ZZC06Enum}
+var ZZHarnesses = map[string]func(){"ZZC06Enum": ZZC06Enum, "ZZEnumAuto": ZZEnumAuto}
